@@ -622,7 +622,7 @@ class Dataset(AbstractDataset, dict, OpMixin, GetSetDelAttrMixin):
         pos, name = self._get_axis_info(axis)
         if keepdims:
             if newaxis is None:
-                newaxis = Axis(func(self.axes[pos].values, axis=0, **kwargs), name)
+                newaxis = Axis(func(self.axes[pos].values, axis=0, **kwargs), name, **self.axes[pos].attrs)
             newaxes = [ax.copy() if ax.name != name else newaxis for ax in self.axes]
         else:
             newaxes = [ax.copy() for ax in self.axes if ax.name != name ]
